@@ -665,6 +665,87 @@ func (e *CrashEnv) CheckImage(ic imageCtx) {
 	if err := klevdb.Check(e.Img, opts); err != nil {
 		fail("check", "Check after recovery and append failed: %v", err)
 	}
+	// life goes on: whatever the interrupted operation left behind (temporary files of a rewrite, of a recovery, of
+	// a migration) must stay without effect when the recovered log is used. One Delete in every segment file, then
+	// the files themselves are read with the reference parser: "a Delete in flight either fully applied or not at
+	// all; nothing else" also holds later.
+	if op.op.Kind != "delete" && ic.si%4 != 0 {
+		return
+	}
+	e.St.Inc("images_continued_with_deletes")
+	l3, err := klevdb.Open(e.Img, opts)
+	if err != nil {
+		fail("continue", "Open of the recovered log failed: %v", err)
+	}
+	segs, err := ReadSegs(e.Img)
+	if err != nil {
+		_ = l3.Close()
+		fail("continue", "reading the segment files: %v", err)
+	}
+	exp := map[int64]klevdb.Message{}
+	for _, g := range got2 {
+		exp[g.Offset] = g
+	}
+	for _, sg := range segs {
+		if len(sg.Recs) == 0 {
+			continue
+		}
+		victim := sg.Recs[0].Off
+		if _, ok := exp[victim]; !ok {
+			continue
+		}
+		del, _, err := l3.Delete(map[int64]struct{}{victim: {}})
+		if err != nil || len(del) != 1 || del[0].Offset != victim {
+			_ = l3.Close()
+			fail("continue", "Delete(%d) on the recovered log returned %v,%v", victim, msgOffsets(del), err)
+		}
+		delete(exp, victim)
+	}
+	got3, err := scanLog(l3)
+	if err != nil {
+		_ = l3.Close()
+		fail("continue", "reading the recovered log after one Delete per segment failed: %v", err)
+	}
+	if len(got3) != len(exp) {
+		_ = l3.Close()
+		fail("continue", "after one Delete per segment the recovered log holds %v, want %d messages", msgOffsets(got3), len(exp))
+	}
+	for _, g := range got3 {
+		if x, ok := exp[g.Offset]; !ok || !FromMessage(x).Eq(g) {
+			_ = l3.Close()
+			fail("continue", "after one Delete per segment the recovered log returns %+v", FromMessage(g))
+		}
+	}
+	if err := l3.Close(); err != nil {
+		fail("continue", "Close failed: %v", err)
+	}
+	if err := klevdb.Check(e.Img, opts); err != nil {
+		fail("continue", "Check after one Delete per segment of the recovered log failed: %v", err)
+	}
+	segs, err = ReadSegs(e.Img)
+	if err != nil {
+		fail("continue", "reading the segment files: %v", err)
+	}
+	var prev int64 = -1
+	n := 0
+	for _, sg := range segs {
+		if !sg.Clean && !sg.Empty {
+			fail("continue", "segment file %s does not parse after one Delete per segment", sg.Name)
+		}
+		for _, r := range sg.Recs {
+			if r.Off <= prev {
+				fail("continue", "segment files hold offset %d after offset %d (file %s) after one Delete per segment of the recovered log", r.Off, prev, sg.Name)
+			}
+			prev = r.Off
+			if x, ok := exp[r.Off]; !ok || !FromMessage(x).Eq(klevdb.Message{Offset: r.Off, Time: time.UnixMicro(r.TS), Key: r.Key, Value: r.Val}) {
+				fail("continue", "segment file %s holds a record at offset %d that the log does not (or with other content)", sg.Name, r.Off)
+			}
+			n++
+		}
+	}
+	if n != len(exp) {
+		fail("continue", "segment files hold %d records, the log %d messages", n, len(exp))
+	}
 }
 
 type knownSkip struct{}
